@@ -100,6 +100,19 @@ class ExcFlow:
         if isinstance(e, ast.Name):
             if e.id in bindings:
                 return list(bindings[e.id])
+            busy = self.__dict__.setdefault("_resolving", set())
+            if e.id not in fi.params() and (fi.qualname, e.id) not in busy:
+                busy.add((fi.qualname, e.id))
+                try:
+                    res = None
+                    for v in self._local_values(fi, e.id):
+                        r_ = self.callable_targets(fi, v, local_types, bindings)
+                        if r_ is not None:
+                            res = (res or []) + [x for x in r_ if x not in (res or [])]
+                finally:
+                    busy.discard((fi.qualname, e.id))
+                if res is not None:
+                    return res
             r = self.f.resolve_name(fi.module, e.id)
             if r and r[0] == "func":
                 return [r[1]]
@@ -114,22 +127,83 @@ class ExcFlow:
                 if ms:
                     return ms
                 return None
-        if isinstance(e, ast.Subscript) and isinstance(e.value, ast.Name):
-            # dispatch through a local dict of callables
-            for n in walk_no_nested_defs(fi.node):
-                tgt = val = None
-                if isinstance(n, ast.Assign) and len(n.targets) == 1:
-                    tgt, val = n.targets[0], n.value
-                elif isinstance(n, ast.AnnAssign):
-                    tgt, val = n.target, n.value
-                if isinstance(tgt, ast.Name) and tgt.id == e.value.id and isinstance(val, ast.Dict):
-                    out = []
-                    for v in val.values:
-                        t = self.callable_targets(fi, v, local_types, bindings)
-                        for x in t or []:
-                            if x not in out:
-                                out.append(x)
-                    return out
+        if isinstance(e, ast.Subscript):
+            # dispatch through a table of callables: d[k]
+            r = self._table_callables(fi, e.value, local_types, bindings, 0)
+            if r is not None:
+                return r
+        if isinstance(e, ast.Call) and isinstance(e.func, ast.Attribute) and e.func.attr == "get" and e.args:
+            # d.get(k[, default])
+            r = self._table_callables(fi, e.func.value, local_types, bindings, 0)
+            if r is not None:
+                for a in e.args[1:]:
+                    for x in self.callable_targets(fi, a, local_types, bindings) or []:
+                        if x not in r:
+                            r.append(x)
+                return r
+        if isinstance(e, ast.IfExp):
+            a, b = self.callable_targets(fi, e.body, local_types, bindings), self.callable_targets(fi, e.orelse, local_types, bindings)
+            if a is not None or b is not None:
+                return list(dict.fromkeys((a or []) + (b or [])))
+        return None
+
+    def _local_values(self, fi: FuncInfo, name: str):
+        out = []
+        for n in walk_no_nested_defs(fi.node):
+            tgt = val = None
+            if isinstance(n, ast.Assign) and len(n.targets) == 1:
+                tgt, val = n.targets[0], n.value
+            elif isinstance(n, ast.AnnAssign):
+                tgt, val = n.target, n.value
+            elif isinstance(n, ast.NamedExpr):
+                tgt, val = n.target, n.value
+            if isinstance(tgt, ast.Name) and tgt.id == name and val is not None:
+                out.append(val)
+        return out
+
+    def _table_callables(self, fi: FuncInfo, d: ast.expr, local_types: dict, bindings: dict, depth: int):
+        """Repo functions stored as values of the dict/sequence expression ``d`` (literal, local bound to one, class-level
+        table, or the table returned by a repo function); None when d is no such table."""
+        if depth > 4:
+            return None
+        if isinstance(d, (ast.Dict, ast.Tuple, ast.List)):
+            vals = d.values if isinstance(d, ast.Dict) else d.elts
+            out = []
+            for v in vals:
+                for x in self.callable_targets(fi, v, local_types, bindings) or []:
+                    if x not in out:
+                        out.append(x)
+            return out
+        if isinstance(d, ast.Name):
+            res = None
+            for v in self._local_values(fi, d.id):
+                r = self._table_callables(fi, v, local_types, bindings, depth + 1)
+                if r is not None:
+                    res = (res or []) + [x for x in r if x not in (res or [])]
+            if res is None:
+                g = fi.module.globals.get(d.id)
+                if g is not None:
+                    return self._table_callables(fi, g, local_types, bindings, depth + 1)
+            return res
+        if isinstance(d, ast.Attribute):
+            c = self.recv_class(fi, d.value, local_types)
+            if c is not None:
+                ca = c.find_class_attr(d.attr)
+                if ca is not None:
+                    owner = ca[0]
+                    any_m = next(iter(owner.methods.values()), fi)
+                    return self._table_callables(any_m, ca[1], local_types, bindings, depth + 1)
+            return None
+        if isinstance(d, ast.Call):
+            ts = self.callable_targets(fi, d.func, local_types, bindings)
+            res = None
+            for t in ts or []:
+                for n in walk_no_nested_defs(t.node):
+                    if isinstance(n, ast.Return) and n.value is not None:
+                        r = self._table_callables(t, n.value, {}, {}, depth + 1)
+                        if r is not None:
+                            res = (res or []) + [x for x in r if x not in (res or [])]
+            return res
         return None
 
     # -- analysis --------------------------------------------------------------------------
@@ -162,7 +236,12 @@ class ExcFlow:
                         names.add(c.func.id)
                 if names:
                     exc_vars[n.targets[0].id] = names
-        res = self._block(fi, fi.node.body, mode, bindings, local_types, exc_vars, depth)
+        saved = type(self)._mode_aliases
+        type(self)._mode_aliases = self._aliases_of_mode(fi)
+        try:
+            res = self._block(fi, fi.node.body, mode, bindings, local_types, exc_vars, depth)
+        finally:
+            type(self)._mode_aliases = saved
         self.memo[key] = frozenset(res)
         return self.memo[key]
 
@@ -194,15 +273,33 @@ class ExcFlow:
                 out |= set(self.raises(t, mode, b2, depth + 1))
         return out
 
+    _mode_aliases: frozenset = frozenset()      # local names bound once to self.stop_at_first_error in the function being walked
+
+    @staticmethod
+    def _is_mode_attr(t) -> bool:
+        return isinstance(t, ast.Attribute) and t.attr == "stop_at_first_error" and isinstance(t.value, ast.Name) and t.value.id == "self"
+
     @classmethod
     def _mode_test(cls, t):
-        """(True, negated) when the test is ``[not] self.stop_at_first_error``."""
+        """(True, negated) when the test is ``[not] self.stop_at_first_error`` (or a local alias of it)."""
         neg = False
         if isinstance(t, ast.UnaryOp) and isinstance(t.op, ast.Not):
             t, neg = t.operand, True
-        if isinstance(t, ast.Attribute) and t.attr == "stop_at_first_error" and isinstance(t.value, ast.Name) and t.value.id == "self":
+        if cls._is_mode_attr(t) or (isinstance(t, ast.Name) and t.id in cls._mode_aliases):
             return True, neg
         return False, False
+
+    def _aliases_of_mode(self, fi) -> frozenset:
+        out = set()
+        seen: dict = {}
+        for n in walk_no_nested_defs(fi.node):
+            if isinstance(n, ast.Name) and isinstance(n.ctx, ast.Store):
+                seen[n.id] = seen.get(n.id, 0) + 1
+        for n in walk_no_nested_defs(fi.node):
+            if isinstance(n, ast.Assign) and len(n.targets) == 1 and isinstance(n.targets[0], ast.Name) and self._is_mode_attr(n.value) \
+                    and seen.get(n.targets[0].id) == 1:
+                out.add(n.targets[0].id)
+        return frozenset(out)
 
     @classmethod
     def _terminates(cls, stmts, mode) -> bool:
@@ -255,11 +352,8 @@ class ExcFlow:
                 out |= self._expr_calls(fi, s.test, mode, bindings, local_types, exc_vars, depth)
                 continue
             if isinstance(s, ast.If):
-                t = s.test
-                neg = False
-                if isinstance(t, ast.UnaryOp) and isinstance(t.op, ast.Not):
-                    t, neg = t.operand, True
-                if isinstance(t, ast.Attribute) and t.attr == "stop_at_first_error" and isinstance(t.value, ast.Name) and t.value.id == "self":
+                is_mode_, neg = self._mode_test(s.test)
+                if is_mode_:
                     take_body = (mode == "stop") != neg
                     out |= self._block(fi, s.body if take_body else s.orelse, mode, bindings, local_types, exc_vars, depth)
                     continue
